@@ -77,7 +77,7 @@ fn exhaustive_jobs(f: fn(&mut Ctx)) -> Vec<Job> {
 
 fn jobs_c05(plan: &Plan) -> Vec<Job> {
     let mut v = exhaustive_jobs(run_exhaustive_c05);
-    let n = plan.tier.pick(160, 600, 2);
+    let n = plan.tier.pick(160, 4000, 2);
     for k in KINDS {
         for h in 0..n {
             v.push(standalone(k, "random", h, run_random_c05));
@@ -88,13 +88,13 @@ fn jobs_c05(plan: &Plan) -> Vec<Job> {
 
 fn jobs_c19(plan: &Plan) -> Vec<Job> {
     let mut v: Vec<Job> = exhaustive_jobs(run_exhaustive_c19).into_iter().filter(|j| j.entry == "list" || j.entry == "optimized").collect();
-    let n = plan.tier.pick(160, 600, 2);
+    let n = plan.tier.pick(160, 4000, 2);
     for k in ["list", "optimized"] {
         for h in 0..n {
             v.push(standalone(k, "random", h, run_random_c19));
         }
     }
-    v.extend(stack_jobs(plan, "C19", "stack-share", plan.tier.pick(30, 200, 1), |d| d.flags.dense && d.flags.heap));
+    v.extend(stack_jobs(plan, "C19", "stack-share", plan.tier.pick(30, 600, 1), |d| d.flags.dense && d.flags.heap));
     v
 }
 
